@@ -13,17 +13,22 @@
 EXTENDS Naturals, Sequences, FiniteSets, TLC
 CONSTANTS Seeds, Cfgs, SeedOf, UsesPy, NFilters, K, MaxSteps, ReseedOnCopy
 Streams == {"py", "np", "torch"}
+\* @type: (Int) => <<Int, Int>>;
 Fresh(s) == <<s, 0>>
+\* @type: (<<Int, Int>>) => <<Int, Int>>;
 Adv(x) == <<x[1], IF x[2] < K THEN x[2] + 1 ELSE K>>
 VARIABLES rng, log, steps, hist
 rvars == <<rng, log, steps, hist>>
 Init == rng = [r \in Streams |-> Fresh(0)] /\ log = <<>> /\ steps = 0 /\ hist = <<>>
 Tick == steps < MaxSteps /\ steps' = steps + 1
+\* @type: (Int) => (Str -> <<Int, Int>>);
 SetRepro(s) == [r \in Streams |-> Fresh(s)]
+\* @type: (Str, Str, Int, Str) => Bool;
 H(a, r, s, c) == hist' = Append(hist, [a |-> a, r |-> r, s |-> s, c |-> c])
 Draw(r) == Tick /\ rng' = [rng EXCEPT ![r] = Adv(@)] /\ UNCHANGED log /\ H("Draw", r, 0, "-")
 UserSeed(r, s) == Tick /\ rng' = [rng EXCEPT ![r] = Fresh(s)] /\ UNCHANGED log /\ H("UserSeed", r, s, "-")
 NewConfig(s) == Tick /\ rng' = SetRepro(s) /\ UNCHANGED log /\ H("NewConfig", "-", s, "-")
+\* @type: (Str, Str -> <<Int, Int>>) => (Str -> <<Int, Int>>);
 AfterGen(c, r0) == [r0 EXCEPT !["py"] = IF UsesPy[c] THEN Adv(@) ELSE @, !["np"] = Fresh(SeedOf[c])]
 GenCore(c) == LET r0 == IF ReseedOnCopy THEN SetRepro(SeedOf[c]) ELSE rng IN
               /\ log' = Append(log, <<c, r0["py"], r0["np"]>>)
@@ -43,8 +48,8 @@ FromAny == \E c \in Cfgs : FromConfig(c)
 Next == DrawAny \/ SeedAny \/ NewAny \/ GenAny \/ FromAny
 Spec == Init /\ [][Next]_rvars
 \* C04: what a dataset is generated from is the same for every history
-Deterministic == \A i, j \in 1..Len(log) : log[i][1] = log[j][1] => log[i] = log[j]
-PureFunctionOfCfg == \A i \in 1..Len(log) : log[i][2] = Fresh(SeedOf[log[i][1]]) /\ log[i][3] = Fresh(SeedOf[log[i][1]])
+Deterministic == \A i, j \in DOMAIN log : log[i][1] = log[j][1] => log[i] = log[j]
+PureFunctionOfCfg == \A i \in DOMAIN log : log[i][2] = Fresh(SeedOf[log[i][1]]) /\ log[i][3] = Fresh(SeedOf[log[i][1]])
 \* named constants for the cfg files
 CfgsAB == {"a", "b"}
 Seeds12 == {1, 2}
